@@ -535,28 +535,30 @@ pub fn eval_unit_name(
             BinOpType::ShiftL | BinOpType::ShiftR => Err(QueryError::generic(
                 "Shifts are not allowed in the right hand side of conversions".to_string(),
             )),
-            BinOpType::Mod => {
+            BinOpType::Mod | BinOpType::And | BinOpType::Or | BinOpType::Xor => {
+                // The result is shown in the units of the left operand. Its
+                // constant is not that of the left operand, though: `10 m ->
+                // 7 m mod 4 m` is a conversion to 3 m. Evaluating the operator
+                // also checks the dimensions of the operands (the unit names
+                // may differ where the dimensions don't).
                 let (left_unit, left) = eval_unit_name(ctx, &binop.left)?;
-                let (right_unit, _right) = eval_unit_name(ctx, &binop.right)?;
-
-                if left_unit != right_unit {
-                    return Err(QueryError::generic(
-                        "Modulo of values with differing dimensions is not meaningful".to_string(),
-                    ));
-                }
-                Ok((left_unit, left))
-            }
-            BinOpType::And | BinOpType::Or | BinOpType::Xor => {
-                let (left_unit, left) = eval_unit_name(ctx, &binop.left)?;
-                let (right_unit, _right) = eval_unit_name(ctx, &binop.right)?;
-
-                if !left_unit.is_empty() || !right_unit.is_empty() {
-                    return Err(QueryError::generic(format!(
-                        "Arguments to {:?} must be dimensionless",
+                let whole = eval_expr(ctx, expr)?;
+                let left_value = eval_expr(ctx, &binop.left)?;
+                match (whole, left_value) {
+                    (Value::Number(whole), Value::Number(left_value)) => {
+                        if left_value.value == Numeric::zero()
+                            || left_value.value == Numeric::Float(0.0)
+                        {
+                            Ok((left_unit, Numeric::zero()))
+                        } else {
+                            Ok((left_unit, &(&whole.value / &left_value.value) * &left))
+                        }
+                    }
+                    _ => Err(QueryError::generic(format!(
+                        "Arguments to {:?} must be numbers",
                         binop.op
-                    )));
+                    ))),
                 }
-                Ok((left_unit, left))
             }
         },
         Expr::Mul { ref exprs } => {
